@@ -419,8 +419,8 @@ namespace bluetoe {
 
         static void write_128bit_uuid( std::uint8_t* out, const details::attribute& char_declaration );
 
-        // mapping of a last handle to a valid attribute index
-        std::size_t last_handle_index( std::uint16_t ending_handle );
+        // mapping of a last handle to the index behind the last attribute with a handle not larger than ending_handle
+        std::size_t end_handle_index( std::uint16_t ending_handle );
 
         std::size_t advertising_data_impl( std::uint8_t* buffer, std::size_t buffer_size, const auto_advertising_data& ) const;
 
@@ -1562,9 +1562,9 @@ namespace bluetoe {
     template < class Iterator, class Filter >
     void server< Options... >::all_attributes( std::uint16_t starting_handle, std::uint16_t ending_handle, Iterator& iter, const Filter& filter )
     {
-        const std::size_t last_index = last_handle_index( ending_handle );
+        const std::size_t end_index = end_handle_index( ending_handle );
 
-        for ( std::size_t index = handle_mapping::first_index_by_handle( starting_handle ); index <= last_index; ++index )
+        for ( std::size_t index = handle_mapping::first_index_by_handle( starting_handle ); index < end_index; ++index )
         {
             const details::attribute attr = attribute_at( index );
 
@@ -1686,12 +1686,16 @@ namespace bluetoe {
     }
 
     template < typename ... Options >
-    std::size_t server< Options... >::last_handle_index( std::uint16_t ending_handle )
+    std::size_t server< Options... >::end_handle_index( std::uint16_t ending_handle )
     {
         const std::size_t mapped = handle_mapping::first_index_by_handle( ending_handle );
 
-        return mapped == details::invalid_attribute_index
-            ? number_of_attributes - 1
+        if ( mapped == details::invalid_attribute_index )
+            return number_of_attributes;
+
+        // if the ending handle points not on an existing attribute, the attribute with the next, larger handle is out of range
+        return handle_mapping::handle_by_index( mapped ) == ending_handle
+            ? mapped + 1
             : mapped;
     }
 
